@@ -77,6 +77,12 @@ func c16Package(r *RNG) []c16Decl {
 		ds = append(ds, c16Decl{fmt.Sprintf("func helper%d(x int) int {\n\tif x < 0 {\n\t\treturn 0\n\t}\n\treturn %s\n}", i, body), true})
 	}
 	ds = append(ds, c16Decl{"func mark(s string, v int) int {\n\tprintln(s, v)\n\treturn v\n}", true})
+	// parameters and locals named like package-level functions (valid Go: the local wins wherever the function is declared)
+	ds = append(ds, c16Decl{"func sa(x int) int {\n\treturn x + 1\n}", true})
+	ds = append(ds, c16Decl{"func sb(v int, sa int) int {\n\tsc := sa * 2\n\treturn v*10 + sa + sc\n}", true})
+	ds = append(ds, c16Decl{"func sc(x int) int {\n\treturn x + 100\n}", true})
+	sh1, sh2 := r.Intn(nF), r.Intn(nF)
+	ds = append(ds, c16Decl{fmt.Sprintf("func lim(v int, helper%d int) int {\n\tmark := v + helper%d\n\thelper%d := mark * 2\n\treturn helper%d + mark\n}", sh1, sh1, sh2, sh2), true})
 	for i := 0; i < nV; i++ {
 		e := fmt.Sprintf("helper%d(%d)", r.Intn(nF), r.Intn(4))
 		if i > 0 {
@@ -97,7 +103,7 @@ func c16Package(r *RNG) []c16Decl {
 			main += fmt.Sprintf("\tprintln(\"m\", t%d.M%d(%d))\n", i, m, r.Intn(5))
 		}
 	}
-	main += fmt.Sprintf("\tprintln(\"h\", helper0(3), g%d)\n}", nV-1)
+	main += fmt.Sprintf("\tprintln(\"h\", helper0(3), g%d, lim(3, 4), sb(3, 4), sa(1), sc(1))\n}", nV-1)
 	ds = append(ds, c16Decl{main, true})
 	return ds
 }
